@@ -210,6 +210,26 @@ RepPairs == {
     << IfN(x, M1, z), IfN(x, M2, z) >>,
     << Bin("Power", x, Two), Bin("Power", x, KF(2, 1)) >> }
 
+RepPairsQuick == {
+    << Ch("Sum", << x, One >>), Ch("Sum", << x, OneF >>) >>,
+    << Ch("Sum", << x, M1 >>), Ch("Sum", << x, M2 >>) >>,
+    << Bin("Lookup", x, CStr("p")), Bin("Lookup", x, CStr("q")) >>,
+    << CmpN(x, Str("lt"), y), CmpN(x, Str("<"), y) >>,
+    << CallKwN(ff, << x >>, Dct(A1B2)), CallKwN(ff, << x >>, Imm(<< KwE("b", Two), KwE("a", One) >>)) >>,
+    << NaNN(NoneV), NaNN(NoneV) >>,
+    << Var("x"), Un("UVar", Str("x")) >>,
+    << Bin("UTagVar", Str("x"), M1), Bin("UTagVar", Str("x"), M2) >>,
+    << Bin("URoot", One, Two), Bin("UPlain", OneF, Two) >>,
+    << Bin("UPlain", One, M1), Bin("UPlain", One, M2) >>,
+    << Bin("ULeg", One, M1), Bin("ULeg", One, M2) >>,
+    << U3("UChild", One, Two, M1), U3("UChild", One, Two, M2) >>,
+    << U3("ULegChild", One, Two, Three), U3("ULegChild", One, Two, KF(3, 1)) >>,
+    << U3("ULegChild", One, Two, M1), U3("ULegChild", One, Two, M2) >> }
+RepTriplesQuick == {
+    << Ch("Sum", << x, One >>), Ch("Sum", << x, OneF >>), Ch("Sum", << x, OneB >>) >>,
+    << Bin("URoot", One, Two), Bin("UPlain", One, Two), Bin("ULeg", One, Two) >>,
+    << NaNN(NoneV), NaNN(NoneV), NaNN(Ty("float")) >> }
+
 \* triples for transitivity / three-way dict use
 RepTriples == {
     << Ch("Sum", << x, One >>), Ch("Sum", << x, OneF >>), Ch("Sum", << x, OneB >>) >>,
